@@ -135,7 +135,7 @@ theorem C17_pushback (nt pb b : Term) (n : Nat) :
     phrase/3 runs for the same body is that clause body with S0, S instantiated to `l`, `r`.
     So resolving a call `Head(l, r)` with the expanded clause runs exactly `phrase(Body, l, r)`. -/
 theorem C17_expand_vs_phrase (h b c : Term) (n n' : Nat)
-    (hh : ∀ nt pb, h ≠ Term.a2 "," nt pb)
+    (hh : ∀ nt pb, h ≠ Term.a2 "," nt pb) (hv : ∀ v, b ≠ .var v)
     (hx : expandDCG (Term.a2 "-->" h b) n = .ok (c, n'))
     (hfresh : ∀ v, occT v b = true → v < n) :
     ∃ head goal,
@@ -143,6 +143,11 @@ theorem C17_expand_vs_phrase (h b c : Term) (n n' : Nat)
       dcgNonTerminal h (.var n) (.var (n + 2)) = .ok head ∧
       phraseGoal b (.var n) (.var (n + 2)) (n + 3) = .ok (goal, n') ∧
       ∀ l r, phraseGoal b l r (n + 3) = .ok (substT (inst n l (n + 2) r) goal, n') := by
+  have hpg : ∀ l r k, phraseGoal b l r k = dcgBody b l r k := by
+    intro l r k
+    cases b with
+    | var v => exact absurd rfl (hv v)
+    | _ => rfl
   have hx' : expandDCG (Term.a2 "-->" h b) n =
       (match dcgNonTerminal h (.var n) (.var (n + 2)) with
        | .error e => .error e
@@ -165,9 +170,9 @@ theorem C17_expand_vs_phrase (h b c : Term) (n n' : Nat)
       simp only [hhead, hbody, Except.ok.injEq, Prod.mk.injEq] at hx
       obtain ⟨hc, hn⟩ := hx
       subst hn
-      refine ⟨head, goal, hc.symm, rfl, hbody, ?_⟩
+      refine ⟨head, goal, hc.symm, rfl, (hpg _ _ _).trans hbody, ?_⟩
       intro l r
-      simp only [phraseGoal]
+      rw [hpg]
       rw [body_spec, specBody] at hbody ⊢
       cases hb : Body.ofTerm b with
       | error e => simp [hb] at hbody
